@@ -56,9 +56,14 @@ type c09Op struct {
 }
 
 type c09Case struct {
-	Proto  bool    `json:"start_in_protobuf_mode"`
-	Ops    []c09Op `json:"ops"`
-	KillAt int     `json:"kill_after_acks,omitempty"`
+	// VerifyEvery: the store is compared with the model after every VerifyEvery-th operation and at
+	// the end (0 or 1 = after every operation). Reading is not neutral: a store may cache what a
+	// read computed, so a run that reads everything after every write can mask what raft would see
+	// (raft calls FirstIndex once per snapshot, not after every append).
+	VerifyEvery int     `json:"verify_every,omitempty"`
+	Proto       bool    `json:"start_in_protobuf_mode"`
+	Ops         []c09Op `json:"ops"`
+	KillAt      int     `json:"kill_after_acks,omitempty"`
 	// Offset is robust.MessageOffset for this case: 0 as in the package's own tests, or the flag
 	// default of a real node (ids of id-less messages default to offset + raft index)
 	Offset uint64 `json:"message_offset,omitempty"`
@@ -330,6 +335,9 @@ func c09Run(c c09Case, dir string) (f *vh.Failure) {
 		}
 		pm := protoMode
 		m.apply(op, &pm)
+		if c.VerifyEvery > 1 && (k+1)%c.VerifyEvery != 0 && k != len(c.Ops)-1 {
+			continue
+		}
 		if f := verifyStore(s, m, fmt.Sprintf("after op #%d (%s)", k, op.Kind), probes); f != nil {
 			return f
 		}
@@ -616,7 +624,8 @@ func TestVerifC09(t *testing.T) {
 		return
 	}
 	rapid.Check(t, func(rt *rapid.T) {
-		c := c09Case{Proto: rapid.Bool().Draw(rt, "protomode"), Offset: rapid.SampledFrom(c09Offsets).Draw(rt, "message_offset")}
+		c := c09Case{Proto: rapid.Bool().Draw(rt, "protomode"), Offset: rapid.SampledFrom(c09Offsets).Draw(rt, "message_offset"),
+			VerifyEvery: rapid.SampledFrom([]int{1, 1, 2, 3, 5, 1000}).Draw(rt, "verifyevery")}
 		if rapid.IntRange(0, 11).Draw(rt, "longlog") == 0 {
 			c.Ops = genLongOps(rt, c.Proto)
 		} else {
